@@ -1,6 +1,6 @@
 #!/bin/bash
 # Run once after a fresh restore, offline. Builds the template generator and runs it (real lex + parse of
-# /repo on templates.txt -> harness/src/generated), then builds the native replay binary (dev + release).
+# /repo on templates.txt -> harness/src/generated), then builds the native replay and witness-search binaries (dev + release).
 # Every check regenerates and rebuilds what it needs from /repo's working tree anyway.
 set -u
 cd "$(dirname "$0")"
@@ -9,6 +9,6 @@ mkdir -p .build evidence replays harness/src/generated
 cp -f /repo/Cargo.lock harness/Cargo.lock 2>/dev/null || true
 cp -f /repo/Cargo.lock gen/Cargo.lock 2>/dev/null || true
 ( cd gen && CARGO_TARGET_DIR=../.build/gen cargo run --offline --quiet -- ../templates.txt ../harness/src/generated ) || echo "setup: template generation failed"
-( cd harness && RUSTFLAGS="--cfg garnish_verif" CARGO_TARGET_DIR=../.build/native_hook cargo build --offline --bin replay 2>&1 | tail -2 )
-( cd harness && RUSTFLAGS="--cfg garnish_verif" CARGO_TARGET_DIR=../.build/native_hook cargo build --offline --release --bin replay 2>&1 | tail -2 )
+( cd harness && RUSTFLAGS="--cfg garnish_verif" CARGO_TARGET_DIR=../.build/native_hook cargo build --offline --bin replay --bin witness_search 2>&1 | tail -2 )
+( cd harness && RUSTFLAGS="--cfg garnish_verif" CARGO_TARGET_DIR=../.build/native_hook cargo build --offline --release --bin replay --bin witness_search 2>&1 | tail -2 )
 exit 0
